@@ -24,6 +24,7 @@ type CliCase struct {
 	In        string      `json:"in"`  // newick | nexus | phyloxml
 	Out       string      `json:"out"` // newick | nexus | phyloxml
 	Translate bool        `json:"translate,omitempty"`
+	ToFile    bool        `json:"to_file,omitempty"`
 }
 
 func checkCli(c CliCase) error {
@@ -40,7 +41,11 @@ func checkCli(c CliCase) error {
 	if c.Out == "nexus" && c.Translate {
 		args = append(args, "--translate")
 	}
-	return cli.Differential(args, doc, nil, func() (string, error) {
+	of := ""
+	if c.ToFile {
+		of = "-o"
+	}
+	return cli.DifferentialOut(args, doc, nil, of, func() (string, error) {
 		// the expected text is produced from the models: reader and writer are judged separately by
 		// the `formats` check, here the command must apply them in the right order with the right options
 		dropPv := c.In == "phyloxml"
@@ -88,6 +93,7 @@ func TestC13Cli(t *testing.T) {
 				c.Trees = append(c.Trees, p)
 			}
 			relabel(t, c.Trees)
+			c.ToFile = rapid.IntRange(0, 2).Draw(t, "tofile") == 0
 			return c
 		},
 		Check: checkCli,
